@@ -33,7 +33,7 @@ package scion
 //@   ensures result == segOf(hf, s.PathMeta.SegLen[0], s.PathMeta.SegLen[1])
 
 //@ func (*Base).DecodeFromBytes
-//@   props C19
+//@   props C19 C18
 //@   let l0 = (data[1]&0x3)<<4|data[2]>>4
 //@   let l1 = (data[2]&0xf)<<2|data[3]>>6
 //@   let l2 = data[3]&0x3f
